@@ -2037,6 +2037,25 @@ func ruleServerLoopShape(p *Prog, r *Out) {
 		return true
 	})
 	r.check(perArm["strm:=<-sc.handlerDone"] >= 2 && perArm["<-sc.maxRequestTimer.C"] >= 1 && perArm["fr,ok:=<-sc.reader"] >= 2, "the graceful-close test stands wherever a stream can leave the table", pos, "handlerDone arm: abandoned and answered; timer arm; reader arm: stream-0 frames and stream frames", fmt.Sprintf("the stream loop no longer asks 'closing and every promised stream finished?' after each way a stream leaves the table (found per arm: %v): when the last promised stream leaves that way nothing asks again and Serve stays for as long as the peer keeps the socket open", perArm))
+	// the one after the connection-level frames follows the whole switch over their types: SETTINGS (a larger initial window) releases blocked responses just as WINDOW_UPDATE does
+	afterSwitch := false
+	ast.Inspect(hs.Body, func(n ast.Node) bool {
+		ifs, ok := n.(*ast.IfStmt)
+		if !ok || squash(p.text(ifs.Cond)) != "fr.Stream()==0" {
+			return true
+		}
+		l := ifs.Body.List
+		for i := 0; i+2 < len(l); i++ {
+			_, isSw := l[i].(*ast.SwitchStmt)
+			chk, isIf := l[i+1].(*ast.IfStmt)
+			br, isBr := l[i+2].(*ast.BranchStmt)
+			if isSw && isIf && isBr && br.Tok == token.CONTINUE && p.isConjunctionOf(chk.Cond, "isClosing()", "canCloseAfterGoAway()") {
+				afterSwitch = true
+			}
+		}
+		return true
+	})
+	r.check(afterSwitch, "the graceful-close test follows every connection-level frame, whatever its type", pos, "if fr.Stream() == 0 { switch fr.Type() {...}; if isClosing() && canCloseAfterGoAway() { break loop }; continue }", "the test that ends the connection once a GOAWAY's promised streams are done no longer stands after the whole switch over connection-level frame types: a SETTINGS frame that raises the initial window lets the last promised response out and nothing asks again, so Serve stays for as long as the peer keeps the socket open")
 	r.check(closings == 5, "the loop leaves only when closing and every promised stream has finished", pos, "closing && canCloseAfterGoAway() -> break loop (after a handler report and after a frame)", fmt.Sprintf("%d of the 5 graceful-close tests are the conjunction of 'a GOAWAY was sent' and 'every stream it promised has finished' followed by leaving the loop: with anything weaker the connection is cut under running requests, with anything stronger Serve never returns", closings))
 	if mismatch != nil {
 		c.expr("content-length disagreement is 'declared and different'", mismatch.Cond, fdeDomain{[]string{"strm.hasContentLength", "strm.recvBody", "strm.contentLength"}, [][]int64{{0, 1}, {0, 3, 5}, {0, 3, 5}}}, nil, func(e fdeEnv) int64 {
@@ -2151,7 +2170,7 @@ func ruleServerLoopShape(p *Prog, r *Out) {
 			}
 			rejects, clears := false, false
 			for _, b := range ifs.Body.List {
-				if in, ok := b.(*ast.IfStmt); ok && squash(p.text(in.Cond)) == "!fr.Flags().Has(FlagEndStream)" && isRejectingBody(p, in.Body) {
+				if in, ok := b.(*ast.IfStmt); ok && squash(p.text(in.Cond)) == "!fr.Flags().Has(FlagEndStream)" && (isRejectingBody(p, in.Body) || marksMalformed(p, in.Body, hh)) {
 					rejects = true
 				}
 				if as, ok := b.(*ast.AssignStmt); ok && squash(p.text(as.Lhs[0])) == "strm.headersFinished" && p.text(as.Rhs[0]) == "false" && rejects {
@@ -2535,4 +2554,37 @@ func init() {
 			}
 		},
 	})
+}
+
+// marksMalformed: the branch stores an error into a verdict variable that the
+// function, once it has the block's bytes in hand, returns through
+// rejectBlock / rejectBlockFrom (the frame is refused, its block still decoded).
+func marksMalformed(p *Prog, body *ast.BlockStmt, fd *ast.FuncDecl) bool {
+	v := ""
+	for _, s := range body.List {
+		if as, ok := s.(*ast.AssignStmt); ok && len(as.Lhs) == 1 && len(as.Rhs) == 1 {
+			if _, _, okE := p.errorCall(as.Rhs[0]); okE {
+				v = p.text(as.Lhs[0])
+			}
+		}
+	}
+	if v == "" {
+		return false
+	}
+	used := false
+	for _, s := range fd.Body.List {
+		ifs, ok := s.(*ast.IfStmt)
+		if !ok || squash(p.text(ifs.Cond)) != v+"!=nil" {
+			continue
+		}
+		if res := firstReturn(ifs.Body); len(res) == 1 {
+			if c, isC := res[0].(*ast.CallExpr); isC {
+				cal := p.calleeOf(c)
+				if (cal == "(*serverConn).rejectBlock" || cal == "(*serverConn).rejectBlockFrom") && p.text(c.Args[len(c.Args)-1]) == v {
+					used = true
+				}
+			}
+		}
+	}
+	return used
 }
